@@ -861,6 +861,7 @@ func runC08(o *opts) error {
 		var kind c08History
 		if mode != "swl" {
 			regs = g.genRegs()
+			g.genRegPass(regs) // how the caller hands the types over (store_c08_regpass.go)
 			kind = g.genHistoryKind(mode)
 		}
 		cl, obs, txs, progs, err := runHistoryC08(w, regs, func(k int, facts []string) (*hTx, string) {
@@ -883,6 +884,7 @@ func runC08(o *opts) error {
 		impl.line("%s", obs)
 		account(w, mode, txs, progs, obs)
 		stats["multi_type_registrations"] += len(regs)
+		c08RegPassStats(stats, regs)
 		if kind.sharedCtx {
 			stats["histories_shared_ctx"]++
 		}
